@@ -293,6 +293,18 @@ func normalize(cs Case) Case {
 	if cs.Ops == nil {
 		cs.Ops = []Op{}
 	}
+	// the clock of heartbeats and server-info syncs never runs backwards (hand-written or shrunk cases)
+	ops := append([]Op{}, cs.Ops...)
+	var clock int64
+	for i, o := range ops {
+		if (o.Op == "hb" && !o.Other) || o.Op == "sync" {
+			if o.Now < clock {
+				ops[i].Now = clock
+			}
+			clock = ops[i].Now
+		}
+	}
+	cs.Ops = ops
 	return cs
 }
 
@@ -760,7 +772,7 @@ func main() {
 		}
 	}
 	rig.Main("C09", func(c *rig.Ctx) {
-		c.SetRule("a case = (rateLimiter, client set present, shard count) + 8-22 operations on the real upstreamLimiter: schema syncs (valid schemas, 0<=local<=global, limits and strategy change, type fixed), heartbeats on a shifted clock, reconcile halves with answered items (limits from {-2^31,-300,-1,0,1,reserve,local,global-1,global,global+1,2^31-1} and random, all item types and strategies), acquire results (accept/refuse, same limits, errors, RequestIDTooOld, stale/zero/negative request times), meter readings; distinct = distinct canonical case; non-trivial = the remote limiter is handed to requests at some step")
+		c.SetRule("a case = (rateLimiter, client set present, shard count) + 8-22 operations on the real upstreamLimiter: schema syncs (valid schemas, 0<=local<=global, limits and strategy change, type fixed), heartbeats and server-info syncs (real clientSets.sync() against a scripted /ratelimit/endpoints: unreachable, no endpoint, same leader, changed leader) on a shifted clock, reconcile halves with answered items (limits from {-2^31,-300,-1,0,1,reserve,local,global-1,global,global+1,2^31-1} and random, all item types and strategies), acquire results (accept/refuse, same limits, errors, RequestIDTooOld, stale/zero/negative request times), meter readings; distinct = distinct canonical case; non-trivial = the remote limiter is handed to requests at some step")
 		if c.Replay != "" {
 			var cs Case
 			if err := c.LoadReplay(&cs); err != nil {
